@@ -148,3 +148,13 @@ func splitLines(s string) []string {
 	}
 	return out
 }
+
+// Breadcrumb records the case about to be executed in-process, so that if the real code takes the
+// whole process down (fatal error, unrecovered panic in a server goroutine) ./check can name the input.
+func Breadcrumb(text string) {
+	base := os.Getenv("VERIF_WORK")
+	if base == "" {
+		base = "/verif/.work"
+	}
+	ioutil.WriteFile(filepath.Join(base, "current_case.txt"), []byte(text), 0o644)
+}
